@@ -67,6 +67,19 @@ Theorem C27_lines_monotone : forall st m name cs st' recs ci k c pos ci' k' c' p
 Proof. exact lines_monotone. Qed.
 Print Assumptions C27_lines_monotone.
 
+(* the theorems above are not vacuous: a position is reported for every byte at or after firstToken of every
+   chunk that holds a token and is not white space only, as long as no earlier chunk is the empty end-of-input
+   chunk (Interp.Repl: every chunk; EvalReader: every chunk after the first, the first one is covered by the Examples) *)
+Theorem C27_report_defined : forall st m name cs st' recs ci k c,
+  reachable st -> run_source st m name cs = Some (st', recs) ->
+  (m = Repl \/ (1 <= ci)%nat) ->
+  nth_error cs ci = Some c -> 0 <= c_first c -> all_space (c_src c) = false ->
+  (forall i d, (i < ci)%nat -> nth_error cs i = Some d -> ~ stops d) ->
+  c_first c <= Z.of_nat k -> (k < length (c_src c))%nat ->
+  exists pos, report st' recs ci k = Some pos.
+Proof. exact report_defined. Qed.
+Print Assumptions C27_report_defined.
+
 (* ---- non-vacuity ---- *)
 (* a 4-chunk source  "x := 1\n"  "/* a\nb */ y := u\n"  "\n"  "z := v"  read by EvalReader on an interpreter whose
    counter stands at 7: u (chunk 1, byte 15) is reported at 3:11, v (chunk 3, byte 5) at 5:6, Globals.Line ends at 4 *)
